@@ -55,6 +55,18 @@ def check_member(country: str, bban: str, between=None, via_object=False):
     if not ("02" <= ref <= "98"):
         bad.append(("reference-digits-out-of-range", {**case, "dd": None}, "02..98", ref))
     if between is not None:
+        # right after refused calls: the canonical text and the assembly come FIRST (what a failed
+        # call leaves behind is typically consumed by the very next call)
+        between()
+        k, v = lib.iban_parse(country + ref + bban)
+        if k != "ok":
+            bad.append(("canonical-pair-rejected-right-after-a-refused-call", {**case, "dd": ref, "after": "refused"},
+                        "accept", (k, v)))
+        between()
+        k, v = lib.outcome(lambda: str(lib.IBAN.from_bban(country, bban)))
+        if (k, v) != ("ok", country + ref + bban):
+            bad.append(("from_bban-wrong-right-after-a-refused-call", {**case, "dd": None, "after": "refused"},
+                        country + ref + bban, (k, v)))
         between()
     for d in range(100):
         dd = f"{d:02d}"
